@@ -20,13 +20,35 @@ pub enum Family {
     Raw(&'static str, Vec<Vec<u8>>),
 }
 
-/// headers a shape menu does not produce: spaces and CR at every edge of id and description
-pub const HEAD_MENU: &[&[u8]] = &[b"", b"id", b"id ", b" ", b"  ", b"id  ", b" id", b"id d ", b"a  b", b"id d e", b"a\rb", b"\rx", b"id \rd", b"\xffz \xc3", b"a\tb"];
+/// headers a shape menu does not produce: ALL strings of up to 3 (thorough: 4) bytes over
+/// {space, TAB, CR, a letter, a non-UTF-8 byte}, plus a few longer ones
+pub fn head_menu(tier: Tier) -> Vec<Vec<u8>> {
+    let alphabet = [b' ', b'\t', b'\r', b'a', 0xffu8];
+    let maxlen = if tier == Tier::Quick { 3 } else { 4 };
+    let mut out: Vec<Vec<u8>> = vec![vec![]];
+    let mut layer: Vec<Vec<u8>> = vec![vec![]];
+    for _ in 0..maxlen {
+        let mut next = vec![];
+        for h in &layer {
+            for &b in &alphabet {
+                let mut x = h.clone();
+                x.push(b);
+                next.push(x);
+            }
+        }
+        out.extend(next.iter().cloned());
+        layer = next;
+    }
+    for h in [&b"id d e"[..], b"id left\rright end", b"a  b ", b"id\tlane=3 x", b"\xffz \xc3"] {
+        out.push(h.to_vec());
+    }
+    out
+}
 
 /// one record with every header of the menu (LF / CRLF), alone, followed by and following a plain record
-pub fn head_menu_inputs(format: Format) -> Vec<Vec<u8>> {
+pub fn head_menu_inputs(format: Format, tier: Tier) -> Vec<Vec<u8>> {
     let mut out = vec![];
-    for head in HEAD_MENU {
+    for head in &head_menu(tier) {
         for nl in [&b"\n"[..], &b"\r\n"[..]] {
             let rec = |h: &[u8]| -> Vec<u8> {
                 let mut r = vec![];
@@ -66,9 +88,9 @@ pub fn head_menu_inputs(format: Format) -> Vec<Vec<u8>> {
 }
 
 /// FASTQ: every header of the menu on a record with every kind of defect (the error carries the id)
-pub fn head_menu_defect_inputs() -> Vec<Vec<u8>> {
+pub fn head_menu_defect_inputs(tier: Tier) -> Vec<Vec<u8>> {
     let mut out = vec![];
-    for head in HEAD_MENU {
+    for head in &head_menu(tier) {
         for nl in ["\n", "\r\n"] {
             // (lines after the header line, final terminator present)
             let bodies: [(&[&str], bool); 7] = [
@@ -173,10 +195,10 @@ pub fn families(format: Format, tier: Tier) -> Vec<Family> {
         }),
         Family::Recs(recs),
         Family::Recs(long_files(format, true)),
-        Family::Raw("header menu (spaces / CR / TAB / non-UTF-8 at every edge of id and description)", head_menu_inputs(format)),
+        Family::Raw("header menu (all headers of <= 3 (thorough 4) bytes over {space, TAB, CR, letter, non-UTF-8 byte} + 5 longer ones)", head_menu_inputs(format, tier)),
         Family::Raw(
             "header menu x defect kinds (invalid separator, unequal lengths, truncation after each line)",
-            if format == Format::Fastq { head_menu_defect_inputs() } else { vec![] },
+            if format == Format::Fastq { head_menu_defect_inputs(tier) } else { vec![] },
         ),
     ]
 }
